@@ -1,10 +1,12 @@
 """C14 (one clause): no feature-gated kernel is reachable without its feature check and
 every dispatcher keeps an ungated fallback. Decides dispatch soundness, not kernel values."""
+from vlib import fixtures
 from rules import tf
 
 
 def run(ctx):
     fx = ctx.facts("default")
+    fixtures.run(ctx, ['tf'])
     tf.run(ctx, fx)
     ctx.floor("R-TF.tf_fns", 100)
     ctx.floor("R-TF.sites", 100)
